@@ -1183,6 +1183,27 @@ func (bi *bvInterp) call(p *bvPath, x *ast.CallExpr) *bvVal {
 			order = types.ExprString(se.X)
 		}
 		little := strings.Contains(order, "LittleEndian")
+		if an := map[string]int{"AppendUint16": 2, "AppendUint32": 4, "AppendUint64": 8}[callee.Name()]; an > 0 && len(x.Args) == 2 {
+			// AppendUintN(b, v): the bytes of v behind the current length of b (within the modelled array)
+			src := bi.expr(p, x.Args[0])
+			v := bi.expr(p, x.Args[1])
+			if src.View != nil && v.isInt() {
+				if l := src.View.length(); l != nil && l.IsConst() {
+					bv := p.Ctx.convert(v.BV, an*8, false)
+					for k := 0; k < an; k++ {
+						pos := an - 1 - k
+						if little {
+							pos = k
+						}
+						c := BV{W: 8, Bits: append([]Bit(nil), bv.Bits[pos*8:pos*8+8]...), Why: bv.Why}
+						src.View.Buf.Cells[src.View.Base.AddC(l.C+int64(k)).String()] = c
+					}
+					return &bvVal{View: &bvView{Buf: src.View.Buf, Base: src.View.Base, Len: Const(l.C + int64(an))}}
+				}
+			}
+			bi.havocArg(p, src)
+			return &bvVal{Opaque: "binary." + callee.Name()}
+		}
 		if n > 0 && len(x.Args) >= 1 {
 			src := bi.expr(p, x.Args[0])
 			if src.View != nil {
